@@ -103,13 +103,6 @@ def renameWalk (m : List (Bytes × Bytes)) : Nat → Nat → Rec → Rec
 
 def renameVerb (names : List Bytes) (r : Rec) : Rec := renameWalk (renameMap names) (r.length + 1) 0 r
 
-/-- Byte-wise lexical order (Go string comparison). -/
-def bytesLt : Bytes → Bytes → Bool
-  | [], [] => false
-  | [], _ :: _ => true
-  | _ :: _, [] => false
-  | a :: as, b :: bs => if a < b then true else if a > b then false else bytesLt as bs
-
 def insertSorted (le : Bytes → Bytes → Bool) (p : Bytes × Bytes) : Rec → Rec
   | [] => [p]
   | q :: rest => if le p.1 q.1 then p :: q :: rest else q :: insertSorted le p rest
